@@ -106,7 +106,7 @@ fn damage(base: &LedgerCase, seeds: &[u16], nmut: usize, fmt_ix: usize) -> (Vec<
     let mut notes = vec![];
     let mut byte_ops: Vec<(usize, usize)> = vec![];
     for m in 0..nmut {
-        let kind = s(3 * m) % 16;
+        let kind = s(3 * m) % 17;
         let nrows = grid.len();
         let ncols = grid[0].len().max(1);
         let (ri, ci) = (if nrows > 1 { 1 + s(3 * m + 1) % (nrows - 1) } else { 0 }, s(3 * m + 2) % ncols);
@@ -122,6 +122,15 @@ fn damage(base: &LedgerCase, seeds: &[u16], nmut: usize, fmt_ix: usize) -> (Vec<
             10 => { grid.insert(ri.min(grid.len()), vec![]); notes.push("blank-line".into()); }
             11 => { if nrows > 1 { let r = grid[ri].clone(); grid.insert(ri, r); } notes.push("duplicate-row".into()); }
             12 => { grid.truncate(1); notes.push("header-only".into()); }
+            16 => {
+                // a declared superficial loss on some sale: forced zero ("not superficial"), forced values, plain values, on whatever sale comes next
+                if let (Some(ca), Some(cs)) = (grid[0].iter().position(|h| h == "action"), grid[0].iter().position(|h| h == "superficial loss")) {
+                    if let Some(row) = (ri..nrows).chain(1..ri).find(|&r| grid[r].get(ca).map(|a| a == "Sell").unwrap_or(false) && cs < grid[r].len()) {
+                        grid[row][cs] = ["0!", "-0!", "0.00!", "-3!", "-1.5", "0", "-0.001!", "!"][s(3 * m + 1) % 8].to_string();
+                    }
+                }
+                notes.push("declared-superficial-loss".into());
+            }
             _ => { byte_ops.push((kind, s(3 * m + 1))); }
         }
     }
